@@ -18,8 +18,10 @@ DECL = 'clock x, y; int i; bool b; int a[3];'
 ID = lambda n: ('id', n)
 ATOMS = {
     'int': [('bin', '<', ID('i'), ('int', 3)), ID('b'), ('bin', '==', ('idx', ID('a'), ('int', 0)), ('int', 1)), ('bool', 1)],
-    'clk': [('bin', op, ID('x'), ('int', 3)) for op in ('<', '<=', '==', '>=', '>')] + [('bin', '<=', ID('y'), ID('i')), ('bin', '>', ('int', 2), ID('x'))],
-    'dif': [('bin', op, ('bin', '-', ID('x'), ID('y')), ('int', 2)) for op in ('<', '<=', '==', '>=', '>')],
+    'clk': [('bin', op, ID('x'), ('int', 3)) for op in ('<', '<=', '==', '>=', '>')] + [('bin', '<=', ID('y'), ID('i'))] +
+           [('bin', op, ('int', 2), ID('x')) for op in ('<', '<=', '==', '>=', '>')] + [('bin', '>=', ID('i'), ID('y'))],
+    'dif': [('bin', op, ('bin', '-', ID('x'), ID('y')), ('int', 2)) for op in ('<', '<=', '==', '>=', '>')] +
+           [('bin', op, ('int', 2), ('bin', '-', ID('y'), ID('x'))) for op in ('<', '<=', '==', '>=', '>')] + [('bin', '<', ('bin', '-', ID('x'), ID('y')), ID('i'))],
 }
 BINOPS = ['&&', '||', 'imply', 'xor', '==', '!=']
 RULE = ('boolean formula trees over leaves {integer predicate, clock bound x~c, clock difference x-y~c} (all five relational '
@@ -30,7 +32,7 @@ RULE = ('boolean formula trees over leaves {integer predicate, clock bound x~c, 
         'atom lies under !, in an imply antecedent, under exists, under a connective ==, != or xor, or under a || both of '
         'whose operands contain a clock atom; must_accept = a plain conjunction of atoms each accepted alone in that position '
         '(measured); everything else is unconstrained by the statement and only counted. All trees of depth <= 2 over one '
-        'representative leaf per class are enumerated in both tiers; Hypothesis draws trees of depth <= 4 over all atoms. '
+        'representative leaf per class are enumerated in both tiers, and every atom (five relational operators, clock or difference on the left or on the right, constant or variable bound) is placed under every connective on either side; Hypothesis draws trees of depth <= 4 over all atoms. '
         'Non-trivial: >= 1 clock atom and >= 1 connective other than &&; distinct = (formula text, position).')
 
 
@@ -246,6 +248,20 @@ def depth2():
     return res
 
 
+def atom_sweep():
+    """every atom (every relational operator, clock or difference on either side) under every connective, on either side of it"""
+    atoms = [('atom', c, t) for c, lst in ATOMS.items() for t in lst]
+    partners = [('atom', 'int', ATOMS['int'][0]), ('atom', 'clk', ATOMS['clk'][1])]
+    out = []
+    for a in atoms:
+        out += [('not', a), ('q', 'forall', a), ('q', 'exists', a), ('not', ('not', a))]
+        for op in BINOPS:
+            for p_ in partners:
+                out.append(('bin', op, a, p_))
+                out.append(('bin', op, p_, a))
+    return out
+
+
 def formula_strategy():
     atoms = [('atom', c, t) for c, lst in ATOMS.items() for t in lst]
     # atoms that use the quantifier binder are only meaningful under a quantifier: generated by substitution below
@@ -266,7 +282,7 @@ def worker(chk, wi, nw):
     j.measure_atoms()
     if wi == 0:
         stats.notes['atoms_accepted_alone'] = {'%s as %s' % k: v for k, v in sorted(j.atom_ok.items())}
-    allf = depth2()
+    allf = depth2() + atom_sweep()
     mine = [f for k, f in enumerate(allf) if k % nw == wi]
     for k in range(0, len(mine), 40):
         for v in j.judge(chk, mine[k:k + 40]):
